@@ -71,7 +71,7 @@ def item_source(item):
 def for_targets(src):
   out = {}
   for n in ast.walk(ast.parse(src)):
-    if isinstance(n, ast.For) and isinstance(n.iter, ast.Call) and getattr(n.iter.func, 'id', '') in ('it', 'it2'):
+    if isinstance(n, ast.For) and isinstance(n.iter, ast.Call) and getattr(n.iter.func, 'id', '') in ('it', 'it2', 'it3'):
       out[n.iter.args[0].value] = ast.unparse(n.target)
   return out
 
